@@ -29,6 +29,7 @@ type seqEnv struct {
 	colls   map[string]*rosmar.Collection // via h1
 	colls2  map[string]*rosmar.Collection // via h2
 	feeds   map[string]*feedBuf
+	multi   *feedBuf // one bucket-level feed over all three collections
 	markers int
 	vdef    map[string]string // design-document variant installed per collection
 }
@@ -88,10 +89,20 @@ func newSeqEnv(mode, scratch string) (*seqEnv, error) {
 			return nil, err
 		}
 	}
+	// a bucket-level feed over all collections, started through the first handle
+	e.multi = newFeedBuf()
+	margs := sgbucket.FeedArguments{ID: "live-multi", Backfill: sgbucket.FeedNoBackfill, Terminator: e.multi.term, DoneChan: e.multi.done,
+		Scopes: map[string][]string{"_default": {"_default"}, "s": {"c1", "c2"}}}
+	if err := e.h1.StartDCPFeed(context.Background(), margs, e.multi.callback, nil); err != nil {
+		return nil, err
+	}
 	return e, nil
 }
 
 func (e *seqEnv) close() {
+	if e.multi != nil {
+		close(e.multi.term)
+	}
 	for _, f := range e.feeds {
 		close(f.term)
 	}
@@ -123,6 +134,7 @@ type SeqStep struct {
 	R        Res                `json:"r"`
 	Post     []PostDoc          `json:"post"`     // documents whose observation changed since the previous line
 	Live     []CollEvs          `json:"live"`     // per collection: events delivered by the running feed since the previous line
+	Mlive    []CollEvs          `json:"mlive"`    // the same, as delivered by the bucket-level feed over all collections (split by CollectionID)
 	Dump     []CollEvs          `json:"dump"`     // per collection whose backfill changed: Dump feed from the path's start CAS
 	Aux      []AuxObs           `json:"aux"`      // other observers (query, views) that changed
 	Start    map[string]*CasRef `json:"start"`    // reset lines: backfill start CAS per collection
@@ -147,10 +159,11 @@ type CollEvs struct {
 }
 
 type seqRunner struct {
-	env  *seqEnv
-	tw   *TraceWriter
-	errs *[]string
-	aux  bool
+	env       *seqEnv
+	tw        *TraceWriter
+	errs      *[]string
+	aux       bool
+	lastMulti []CollEvs
 }
 
 func absKeyFn(suffix string) func(string) string {
@@ -220,7 +233,7 @@ func (sr *seqRunner) runPath(trNo int, ops []GenOp) error {
 		startRefs[c] = tr.C(startCas[c])
 	}
 	tr.Add(SeqStep{K: "reset", Tr: trNo, Mode: env.mode, Coll: "-", Op: "-", A: x.emptyArgs(), R: Res{Cls: "ok", Body: NoBody(), Cas: tr.C(0)},
-		Post: []PostDoc{}, Live: []CollEvs{}, Dump: []CollEvs{}, Aux: []AuxObs{}, Start: startRefs, P: "-", Shown: []*CasRef{}, Dump2: []Dump2Obs{}})
+		Post: []PostDoc{}, Live: []CollEvs{}, Dump: []CollEvs{}, Aux: []AuxObs{}, Start: startRefs, P: "-", Shown: []*CasRef{}, Dump2: []Dump2Obs{}, Mlive: []CollEvs{}})
 	prevDoc := map[string]string{}
 	{
 		// fresh keys: the trace specification starts every path from "all absent"; only deviations are logged
@@ -247,7 +260,7 @@ func (sr *seqRunner) runPath(trNo int, ops []GenOp) error {
 		a, r := x.Exec(coll, env.h1, &gop)
 		a.Key = op.Key
 		step := SeqStep{K: "call", Tr: trNo, I: i + 1, Mode: env.mode, Coll: op.Coll, Op: op.Op, A: a, R: r,
-			Post: []PostDoc{}, Live: []CollEvs{}, Dump: []CollEvs{}, Aux: []AuxObs{}, Start: startRefs, P: "-", Shown: []*CasRef{}, Dump2: []Dump2Obs{}}
+			Post: []PostDoc{}, Live: []CollEvs{}, Dump: []CollEvs{}, Aux: []AuxObs{}, Start: startRefs, P: "-", Shown: []*CasRef{}, Dump2: []Dump2Obs{}, Mlive: []CollEvs{}}
 		if r.Cas != nil && r.Cas.raw > maxCas && r.Cls == "ok" && op.Op != "SetWithMeta" && op.Op != "DeleteWithMeta" {
 			maxCas = r.Cas.raw
 		}
@@ -257,6 +270,7 @@ func (sr *seqRunner) runPath(trNo int, ops []GenOp) error {
 			return fmt.Errorf("trace %d step %d (%s): %w", trNo, i+1, op.Op, err)
 		}
 		step.Live = lives
+		step.Mlive = sr.lastMulti
 		// projection of every path key in every collection
 		for _, c := range collNames {
 			for _, k := range pathKeys {
@@ -400,6 +414,18 @@ func (sr *seqRunner) flushFeeds() (map[string][]sgbucket.FeedEvent, error) {
 		}
 		out[c] = evs
 	}
+	// the bucket-level feed delivers one marker per collection
+	if env.multi != nil {
+		var all []sgbucket.FeedEvent
+		for i := 0; i < len(collNames); i++ {
+			evs, err := env.multi.drainUntil("~mark", val, 10*time.Second)
+			if err != nil {
+				return nil, fmt.Errorf("bucket-level feed: %w", err)
+			}
+			all = append(all, evs...)
+		}
+		out["multi"] = all
+	}
 	return out, nil
 }
 
@@ -419,6 +445,19 @@ func (sr *seqRunner) collectLive(x *Ctx, absKey func(string) string, suffix stri
 			ce.Evs = append(ce.Evs, x.absEvent(&raw[c][j], absKey))
 		}
 		out = append(out, ce)
+	}
+	// the bucket-level feed's events, split by the collection id they carry
+	sr.lastMulti = nil
+	for ci, c := range collNames {
+		ce := CollEvs{C: c, Evs: []Ev{}}
+		for j := range raw["multi"] {
+			k := string(raw["multi"][j].Key)
+			if strings.HasPrefix(k, "~") || int(raw["multi"][j].CollectionID) != ci {
+				continue
+			}
+			ce.Evs = append(ce.Evs, x.absEvent(&raw["multi"][j], absKey))
+		}
+		sr.lastMulti = append(sr.lastMulti, ce)
 	}
 	return out, nil
 }
